@@ -43,7 +43,8 @@ def explore(name, make_engine, scenario, claims, confirm=None, witness=None, max
             if confirm is not None:
                 info = confirm(eng, m, val, 'exception')
             if not exc_is_violation:
-                out['candidates'].append(dict(claim='exception', desc=repr(val)))
+                t = f"exception_outside_claim:{type(val).__name__}"
+                out['tags'][t] = out['tags'].get(t, 0) + 1
             elif info:
                 out['violations'].append(dict(claim='exception', **info))
             else:
